@@ -28,7 +28,7 @@ RULE = (
 )
 ASSUMPTIONS = ["positional-only markers are not in the statement's list of parameter kinds and are not generated",
                "parameter defaults are not compared (the statement speaks of names and kinds)"]
-REQUIRED = ["input:schema", "input:config", "input:configtype", "input:nested-schema", "input:nested-config", "has:configtype-field", "has:virtual", "has:method",
+REQUIRED = ["input:schema", "input:config", "input:configtype", "input:nested-schema", "input:nested-config", "has:empty-nested-schema", "has:configtype-field", "has:virtual", "has:method",
             "param:varargs", "param:kwonly", "param:varkw", "ann:generic", "ann:string", "ret:annotated"]
 LEVEL_TEXT = (
     "Generated schemas and method signatures; the stub is parsed with ast and compared structurally with the "
@@ -333,6 +333,28 @@ def run_case(case, R):
                     R.check(sorted(n for n, k in nparams[1:]) == sorted(want_ctor), "ctor", "params:" + form,
                             lambda: "stub of the %s %r: __init__ parameters %r, its persistent fields %r" % (form, c["key"], nparams, want_ctor))
             break
+        # a nested schema that declares no field of its own (a free-form, dynamic section) is a field like any other
+        free = cc.Schema()
+        free.name = cc.StringField(default="n")
+        free.extra = cc.Schema(dynamic=True)
+        free.section.inner = cc.IntField(default=1)
+        free.section.empty = cc.Schema()
+        for form, target, kw in (("schema", free, {"class_name": "FreeForm"}), ("config", free(), {"class_name": "FreeForm"}), ("configtype", cc.make_type(free, "FreeForm", module=__name__), {})):
+            try:
+                with contextlib.redirect_stdout(io.StringIO()):
+                    fcls = [n for n in ast.parse(cc.generate_stub(target, **kw)).body if isinstance(n, ast.ClassDef)][0]
+                    scls = [n for n in ast.parse(cc.generate_stub(free._fields["section"], class_name="Sect")).body if isinstance(n, ast.ClassDef)][0]
+            except Exception as exc:
+                R.fail("raises", "empty-section:" + form, "generate_stub of a schema with an empty dynamic section raised %r" % (exc,))
+                continue
+            R.label("has:empty-nested-schema")
+            for what, cls_node, want in (("root", fcls, ["extra", "name", "section"]), ("section", scls, ["empty", "inner"])):
+                fattrs = sorted(n.target.id for n in cls_node.body if isinstance(n, ast.AnnAssign) and isinstance(n.target, ast.Name))
+                R.check(fattrs == want, "attrs", "set:empty-section:" + form, lambda: "schema with a field-less nested schema (%s, %s): stub declares %r, its fields are %r" % (form, what, fattrs, want))
+                finit = {n.name: n for n in cls_node.body if isinstance(n, ast.FunctionDef)}.get("__init__")
+                if finit is not None:
+                    fparams = sorted(n for n, k in _ast_kinds(finit)[1:])
+                    R.check(fparams == want, "ctor", "params:empty-section:" + form, lambda: "schema with a field-less nested schema (%s, %s): __init__ takes %r, persistent fields are %r" % (form, what, fparams, want))
         # bound method still works and the stub generation did not disturb it
         for key in mkeys:
             R.check(callable(getattr(cfg, key, None)), "pure", "bound-method", "method %s no longer callable" % key)
